@@ -767,3 +767,38 @@ def align(ops, lines):
             got.append(lines[i]); i += 1
         out.append((op, got))
     return out
+
+
+def candidate_ok(ops):
+    """A (shrunk) machine case is meaningful only if every frame the client will parse is declared."""
+    decl = set()
+    stream = b""
+    for o in ops:
+        t = o.split()
+        if t[0] == "decl":
+            decl.add(t[1])
+        elif t[0] == "frame":
+            if t[1] not in decl:
+                return False
+        elif t[0] == "feed":
+            for e in t[1:]:
+                if e.startswith("c:") and e[2:] != "-":
+                    stream += bytes.fromhex(e[2:])
+    i = 0
+    while len(stream) - i >= 7:
+        size = int.from_bytes(stream[i + 3:i + 7], "big") + 8
+        if len(stream) - i < size:
+            break
+        if stream[i:i + size].hex() not in decl:
+            return False
+        i += size
+    return True
+
+
+def canon_nondet(il, ml):
+    """Where the model flags an order-dependent outcome (HashMap iteration order in a drain that
+    fails part-way), nothing from that step on is compared."""
+    if "nondet" in ml:
+        k = max(ml.index("nondet") - 1, 0)
+        return il[:k], ml[:k]
+    return il, ml
